@@ -40,6 +40,7 @@
 #include <poll.h>
 #include <dirent.h>
 #include <sys/stat.h>
+#include <sanitizer/lsan_interface.h>
 
 extern "C" {
 #include "std.h"
@@ -51,6 +52,7 @@ extern "C" {
 #include "lpc/object.h"
 #include "lpc/array.h"
 #include "lpc/mapping.h"
+#include "lpc/buffer.h"
 #include "lpc/program.h"
 #include "lpc/include/origin.h"
 #include "efuns/call_out.h"
@@ -171,10 +173,20 @@ static std::string sv_json(svalue_t *v, int depth) {
   case T_STRING: return jstr(v->u.string);
   case T_OBJECT: return (v->u.ob->flags & O_DESTRUCTED) ? std::string("0") : jstr(std::string("ob:") + v->u.ob->name);
   case T_ARRAY: return depth > 6 ? std::string("\"...\"") : arr_json(v->u.arr, depth);
-  case T_MAPPING: return "\"<mapping>\"";
+  case T_MAPPING: {   // canonical: entries sorted by the JSON text of their keys
+    if (depth > 6) return "\"...\"";
+    std::vector<std::pair<std::string, std::string>> es;
+    mapping_t *m = v->u.map;
+    for (int i = 0; i <= (int)m->table_size; i++)
+      for (mapping_node_t *n = m->table[i]; n; n = n->next) es.push_back({sv_json(&n->values[0], depth + 1), sv_json(&n->values[1], depth + 1)});
+    std::sort(es.begin(), es.end());
+    std::string o = "{\"m\":[";
+    for (size_t i = 0; i < es.size(); i++) { if (i) o += ","; o += "[" + es[i].first + "," + es[i].second + "]"; }
+    return o + "]}";
+  }
   case T_FUNCTION: return "\"<function>\"";
-  case T_BUFFER: return "\"<buffer>\"";
-  case T_CLASS: return "\"<class>\"";
+  case T_BUFFER: return "{\"b\":\"" + hex((const char *)v->u.buf->item, v->u.buf->size) + "\"}";
+  case T_CLASS: return depth > 6 ? std::string("\"...\"") : "{\"c\":" + arr_json(v->u.arr, depth) + "}";
   default: snprintf(b, sizeof b, "\"<type %d>\"", v->type); return b;
   }
 }
@@ -412,6 +424,26 @@ static bool do_op(const std::vector<std::string> &op) {
   if (o == "hostcat" && op.size() > 1) {      // log the content of a host file (hex)
     std::ifstream in(op[1], std::ios::binary); std::stringstream ss; ss << in.rdbuf(); std::string d = ss.str();
     emit("\"e\":\"HostFile\",\"path\":" + jstr(op[1]) + ",\"exists\":" + (in.good() || in.eof() ? "true" : "false") + ",\"hex\":\"" + hex(d.data(), d.size()) + "\"");
+    return false;
+  }
+  if (o == "expire") {        // time passes: every call_out that is due runs (or is dropped) - what backend() does each second
+    g_vtime += op.size() > 1 ? atol(op[1].c_str()) : 1;
+    error_context_t econ;
+    if (save_context(&econ)) {
+      if (setjmp(econ.context)) restore_context(&econ);
+      else { current_time = g_vtime; eval_cost = CONFIG_INT(__MAX_EVAL_COST__); call_out(); }
+      pop_context(&econ);
+    }
+    current_object = 0; command_giver = 0; current_interactive = 0;
+    remove_destructed_objects();
+    return false;
+  }
+  if (o == "leakcheck") {     // LeakSanitizer: allocations nothing points to any more (refcount leaks, cyclic garbage)
+    fflush(stderr);
+    fprintf(stderr, "@@LEAKCHECK-BEGIN %s\n", op.size() > 1 ? op[1].c_str() : "");
+    int r = __lsan_do_recoverable_leak_check();
+    fprintf(stderr, "@@LEAKCHECK-END %d\n", r);
+    snprintf(b, sizeof b, "\"e\":\"LeakCheck\",\"tag\":%s,\"leaks\":%d", jstr(op.size() > 1 ? op[1] : "").c_str(), r); emit(b);
     return false;
   }
   if (o == "fslog") { g_fslog = atoi(op[1].c_str()) != 0; return false; }
@@ -703,6 +735,13 @@ static std::vector<std::string> split(const std::string &l) {
 
 static void sig_fpe(int) { signal(SIGFPE, sig_fpe); }   // as main.c installs it
 
+// a stack frame of the driver's own code (wherever the tree was checked out), not of the harness / runtime libraries
+static bool is_repo_frame(const std::string &file) {
+  if (file.find("/harness/") != std::string::npos || file.find("sanitizer") != std::string::npos || file.find("sysdeps") != std::string::npos ||
+      file.find("csu/") != std::string::npos || file.find("/usr/") != std::string::npos || file.find("/verif/") == 0) return false;
+  return file.find(".c:") != std::string::npos || file.find(".y:") != std::string::npos || file.find(".cpp:") != std::string::npos || file.find(".h:") != std::string::npos;
+}
+
 int main(int argc, char **argv) {
   if (argc < 4) { fprintf(stderr, "usage: vdrv <conf> <script> <out> [timeout]\n"); return 2; }
   int tmo = argc > 4 ? atoi(argv[4]) : 20;
@@ -793,11 +832,36 @@ int main(int argc, char **argv) {
     };
     bool in_first_stack = false;
     int nlog = 0;
+    std::string leak_tag; bool in_leakcheck = false; std::string leak_hdr; std::vector<std::string> leak_frames;
+    auto flush_leak = [&]() {
+      if (leak_hdr.empty()) return;
+      std::string r = "{\"e\":\"Leak\",\"tag\":" + jstr(leak_tag) + ",\"what\":" + jstr(leak_hdr) + ",\"frames\":[";
+      for (size_t i = 0; i < leak_frames.size() && i < 5; i++) { if (i) r += ","; r += jstr(leak_frames[i]); }
+      fprintf(out, "%s]}\n", r.c_str());
+      leak_hdr.clear(); leak_frames.clear();
+    };
     while (std::getline(is, l)) {
       size_t p = l.find("@@H{");
       if (p == std::string::npos) p = l.find("@@V{");
       if (p != std::string::npos) { fprintf(out, "%s\n", l.c_str() + p + 3); continue; }
       size_t q;
+      if ((q = l.find("@@LEAKCHECK-BEGIN")) != std::string::npos) { in_leakcheck = true; leak_tag = l.size() > q + 18 ? l.substr(q + 18) : ""; continue; }
+      if (l.find("@@LEAKCHECK-END") != std::string::npos) { flush_leak(); in_leakcheck = false; continue; }
+      if (in_leakcheck) {
+        if (l.find("leak of ") != std::string::npos && l.find("allocated from") != std::string::npos) { flush_leak(); leak_hdr = l.substr(0, l.find(" allocated from")); continue; }
+        size_t in = l.find(" in ");
+        if (!leak_hdr.empty() && l.find("#") != std::string::npos && in != std::string::npos) {
+          std::string rest = l.substr(in + 4);
+          std::string fn = rest.substr(0, rest.find(' '));
+          std::string file = rest.find(' ') != std::string::npos ? rest.substr(rest.find(' ') + 1) : "";
+          if (is_repo_frame(file)) {
+            size_t sl = file.rfind('/'); if (sl != std::string::npos) file = file.substr(sl + 1);
+            size_t co = file.find(':'); if (co != std::string::npos) file = file.substr(0, co);
+            leak_frames.push_back(fn + "@" + file);
+          }
+        }
+        continue;
+      }
       if ((q = l.find("ERROR: AddressSanitizer: ")) != std::string::npos) {
         flush_report();
         std::string k = l.substr(q + 25); size_t sp_ = k.find(' '); if (sp_ != std::string::npos) k = k.substr(0, sp_);
@@ -821,7 +885,7 @@ int main(int argc, char **argv) {
           std::string rest = l.substr(in + 4);
           std::string fn = rest.substr(0, rest.find(' '));
           std::string file = rest.find(' ') != std::string::npos ? rest.substr(rest.find(' ') + 1) : "";
-          if (file.find("/repo/") != std::string::npos || file.find("neolith") != std::string::npos) {
+          if (is_repo_frame(file)) {
             size_t sl = file.rfind('/'); if (sl != std::string::npos) file = file.substr(sl + 1);
             size_t co = file.find(':'); if (co != std::string::npos) file = file.substr(0, co);
             frames.push_back(fn + "@" + file);
